@@ -517,6 +517,7 @@ func (c *fsClient) isStackObj(t *Term) bool {
 }
 
 func (c *fsClient) OnBackEdge(x *Exec, st *State, fr *Frame, cur *Term) {}
+func (c *fsClient) OnLoopLeave(x *Exec, st *State, fr *Frame, cur *Term, fromHeader bool) {}
 
 // OnLoopExit discharges tokens that every iteration drawing them released.
 func (c *fsClient) OnLoopExit(x *Exec, st *State, all *Term, backs []*State, phiLists []*Term) {
@@ -1066,6 +1067,14 @@ func (c *fsClient) rename(x *Exec, st *State, fr *Frame, site ssa.CallInstructio
 		}
 		// update-index gate (C05/C09): the table's minimum must not be below the floor
 		c.checkGate(st, fr, site, a, role)
+		// name check gate (C12): the very file renamed passed the name check
+		if strings.Contains(role, "Addition") {
+			if g.flag("nameChecked") == a {
+				c.okay("NAMECHECK-GATE", role+" / table listed only after the name check", "checkAddition(tmp) returned nil before the rename")
+			} else {
+				c.violate(st, "NAMECHECK-GATE", role+" / table listed only after the name check", pos, "a new table is renamed into place on a path on which the name check has not accepted it")
+			}
+		}
 		return
 	}
 	if kb == kListLock || kb == kSubLock {
